@@ -39,17 +39,20 @@ Matches(ign, code) == ign = "bare" \/ ign = code
 (***************************************************************************)
 (* Raw diagnostics of a file, in visiting order: <<code, lineno>> (1-based)*)
 (***************************************************************************)
-RECURSIVE RawFrom(_, _)
-RawFrom(lines, i) ==
-    IF i > Len(lines) THEN << >>
-    ELSE [j \in 1..Len(lines[i].diags) |-> [code |-> lines[i].diags[j], line |-> i]] \o RawFrom(lines, i + 1)
-\* NameCheckVisitor visits the tree twice (collecting, then checking; name_check_visitor.py:1327).
-\* Most diagnostics are only raised in the second visit (_show_error_if_checking); others -- in this
-\* model c2 (unsupported_operation) -- are raised in both, so show_error sees them twice and the
-\* second call takes the `duplicate` return path.
+\* Each statement of the realised files is a module-level lambda.  NameCheckVisitor visits a
+\* function body twice when it reaches the def/lambda in its checking pass (first in the
+\* collecting state, then in the checking state; functions.py / name_check_visitor.py).  Most
+\* diagnostics are only raised in the checking state (_show_error_if_checking); others -- in this
+\* model c2 (unsupported_operation) -- are raised in both, so show_error sees them twice per line
+\* and the second call takes the `duplicate` return path.
 TwoPhaseCodes == {"c2"}
 IsTwoPhase(d) == d.code \in TwoPhaseCodes
-Raw(c) == SelectSeq(RawFrom(c.lines, 1), IsTwoPhase) \o RawFrom(c.lines, 1)
+LineDiags(lines, k) == [j \in 1..Len(lines[k].diags) |-> [code |-> lines[k].diags[j], line |-> k]]
+RECURSIVE RawFrom(_, _)
+RawFrom(lines, k) ==
+    IF k > Len(lines) THEN << >>
+    ELSE SelectSeq(LineDiags(lines, k), IsTwoPhase) \o LineDiags(lines, k) \o RawFrom(lines, k + 1)
+Raw(c) == RawFrom(c.lines, 1)
 
 (***************************************************************************)
 (* Impl                                                                    *)
